@@ -18,8 +18,8 @@ tables of that file.
   `run` = the loop.
 * The semantic actions are abstracted: a reduction pops `mmR2[n]` entries and
   pushes the goto state, values are ignored; the actions that can abort the
-  parse (`return 1`) are an arbitrary oracle `fail : Nat → Bool` on the index
-  of the reduce event (Martian/LexerActions.lean models those actions; the
+  parse (`return 1`; only productions in `failProds`, regenerated) are an
+  arbitrary oracle `fail : Nat → Bool` on the index of the reduce event (Martian/LexerActions.lean models those actions; the
   totality theorems hold for every oracle).
 * `Event`: the lines the real loop prints with `mmDebug = 4`, which the harness
   compares with the real parser's own output.
@@ -54,6 +54,7 @@ structure Tables where
   eofCode : Int
   ntoknames : Nat
   nerrmsgs : Nat
+  failProds : List Nat   -- the productions whose semantic action contains a `return` (can abort the parse)
 
 /-! ## `mmlex1` -/
 
@@ -243,14 +244,14 @@ def step (T : Tables) (fail : Nat → Bool) (c : Cfg) : Step :=
               | some s2 =>
                 if s2 < 0 then .panic else
                 let evs := ev1 ++ [.reduce n s]
-                if fail c1.nred then .done 1 evs none { c1 with nred := c1.nred + 1 }
+                if T.failProds.contains n && fail c1.nred then .done 1 evs none { c1 with nred := c1.nred + 1 }
                 else .cont { c1 with stack := s2.toNat :: t :: rest, nred := c1.nred + 1 } (evs ++ [.push s2.toNat])
           | _, _ => .panic
         | some .error =>
           match c1.errflag with
           | 3 =>
             -- no shift yet; clobber the input char
-            if tok == T.eofCode then .done 1 (ev1 ++ [.discard tok]) none c1
+            if tok == T.eofCode then .done 1 (ev1 ++ [.discard tok]) (some (c1.nread - 1)) c1
             else .cont { c1 with la := none } (ev1 ++ [.discard tok])
           | ef =>
             -- brand new error: `mmlex.Error(mmErrorMessage(state, token))`
